@@ -101,3 +101,75 @@ def tighten(edit, limit=100000):
         if n > limit:
             raise RuntimeError("tighten_bounds did not converge within the step budget")
     return n
+
+
+# ---------------------------------------------------------------------------------------------- XML / CSV / multiset docs
+def xml_specs(depth=2):
+    """Small XML element specs: (tag, attrib dict, text, children)."""
+    leaves = [('a', {}, None, ()), ('a', {}, 't', ()), ('b', {'x': '1'}, None, ()), ('a', {'x': '2'}, 'u', ())]
+    if depth <= 1:
+        return leaves
+    res = list(leaves)
+    import itertools
+    for tag in ('a', 'r'):
+        for kids in itertools.chain(itertools.product(leaves, repeat=1), itertools.product(leaves[:3], repeat=2)):
+            res.append((tag, {}, None, tuple(kids)))
+    return res
+
+
+def build_xml(spec, opt=None):
+    import xml.etree.ElementTree as ET
+    import graphtage
+    from graphtage import xml as gxml
+
+    def mk(s):
+        e = ET.Element(s[0], dict(s[1]))
+        e.text = s[2]
+        for k in s[3]:
+            e.append(mk(k))
+        return e
+    return gxml.build_tree(mk(spec), graphtage.BuildOptions(**(opt or {})))
+
+
+def csv_specs():
+    import itertools
+    cells = ['a', 'b', '']
+    rows = [list(r) for n in (1, 2) for r in itertools.product(cells, repeat=n)]
+    tables = [[r] for r in rows] + [[r1, r2] for r1 in rows[:5] for r2 in rows[:5]]
+    return tables
+
+
+def build_csv(table, opt=None):
+    import graphtage
+    from graphtage import csv as gcsv, json as gjson
+    o = graphtage.BuildOptions(**(opt or {}))
+    rows = []
+    for row in table:
+        data = [gjson.build_tree(i, options=o) for i in row]
+        for col in data:
+            if isinstance(col, graphtage.StringNode):
+                col.quoted = False
+        rows.append(gcsv.CSVRow(data))
+    return gcsv.CSVNode(rows)
+
+
+def build_multiset(items, opt=None):
+    import graphtage
+    return graphtage.MultiSetNode([build(i, opt) for i in items])
+
+
+def snapshot(node):
+    """Structural snapshot of a tree (class name without the 'Edited' prefix, payload, flags, children in order; multiset
+    children sorted) - independent of to_obj()."""
+    import graphtage
+    name = type(node).__name__
+    if name.startswith('Edited'):
+        name = name[len('Edited'):]
+    if isinstance(node, graphtage.LeafNode):
+        return (name, repr(node.object))
+    kids = [snapshot(c) for c in node.children()]
+    if isinstance(node, graphtage.MultiSetNode):
+        kids = sorted(kids, key=repr)
+    flags = tuple((f, getattr(node, f)) for f in ('allow_key_edits', 'auto_match_keys', 'allow_list_edits',
+                                                  'allow_list_edits_when_same_length') if hasattr(node, f))
+    return (name, flags, tuple(kids))
